@@ -10,6 +10,7 @@ mod c05;
 mod c05t;
 mod c11;
 mod c14;
+mod c18;
 mod cborref;
 mod faults;
 mod gen;
@@ -39,6 +40,7 @@ fn check_by_name(name: &str) -> Option<&'static dyn Check> {
     "c05" => Some(&c05::C05_CHECK),
     "c05g" => Some(&c05::C05G_CHECK),
     "c14" => Some(&c14::C14_CHECK),
+    "c18" => Some(&c18::C18_CHECK),
     _ => None,
   }
 }
@@ -92,6 +94,7 @@ fn main() {
         "c11" => run_c11(seed, tier),
         "c05" => run_c05(seed, tier),
         "c14" => run_c14(seed, tier),
+        "c18" => run_c18(seed, tier),
         _ => usage(),
       };
       std::process::exit(code);
@@ -541,6 +544,81 @@ fn run_c14(seed: u64, tier: Tier) -> i32 {
     extra: Default::default(),
   };
   report::finish(&rep, &agg, findings, t0.elapsed().as_secs_f64(), None, &|_, _| true)
+}
+
+// ------------------------------------------------------------------------------------------------
+// C18 (the real CLI binary against seed-built worlds)
+
+fn run_c18(seed: u64, tier: Tier) -> i32 {
+  let t0 = Instant::now();
+  let workers = workers_from_env();
+  let cli = std::env::var("VERIF_CLI").unwrap_or_else(|_| "/verif/target/repo/debug/cddl".to_string());
+  if !std::path::Path::new(&cli).exists() {
+    eprintln!("HARNESS-ERROR: the cddl binary {} does not exist (./check builds it from /repo)", cli);
+    return 2;
+  }
+  let total = runs_from_env(match tier {
+    Tier::Quick => 3_000,
+    Tier::Thorough => 400_000,
+  });
+  let plan = Plan {
+    check: "c18",
+    seed,
+    tier,
+    total,
+    batch: 100,
+    workers,
+    deadline: if tier == Tier::Thorough { thorough_deadline(900) } else { None },
+    keep_fps: false,
+    sample_below: 5,
+  };
+  let mut agg = run_plan(&plan);
+  eprintln!("phase search: {:.1}s ({} deaths, {} violations)", t0.elapsed().as_secs_f64(), agg.deaths.len(), agg.violations.len());
+  let n_deaths = agg.deaths.len() as u64;
+  agg.probe("harness_child_deaths_left_to_C05", n_deaths);
+  let groups = triage::group(&agg.violations);
+  let minimised: std::sync::Mutex<Vec<(u64, Violation)>> = std::sync::Mutex::new(Vec::new());
+  let next = std::sync::atomic::AtomicUsize::new(0);
+  std::thread::scope(|sc| {
+    for _ in 0..workers.min(groups.len().max(1)) {
+      sc.spawn(|| loop {
+        let i = next.fetch_add(1, std::sync::atomic::Ordering::SeqCst);
+        if i >= groups.len() || i >= 40 {
+          break;
+        }
+        let (run, v, _) = &groups[i];
+        let m = if v.class == "harness" { v.clone() } else { c18::minimise(v, 60) };
+        minimised.lock().unwrap().push((*run, m));
+      });
+    }
+  });
+  let mut minimised = minimised.into_inner().unwrap();
+  minimised.sort_by_key(|x| x.0);
+  let mut findings = Vec::new();
+  for (run, v) in minimised {
+    if v.class == "harness" {
+      agg.harness_errors.push(format!("{}: {}", v.signature, v.detail));
+      continue;
+    }
+    findings.push(report::Finding { run, violation: v });
+  }
+  let rep = report::Report {
+    property: "C18",
+    check: "c18",
+    seed,
+    tier,
+    level: "exploration",
+    rule: "one evaluation = one invocation of the real cddl binary in a private directory built from the seed: schema file (valid / invalid / missing / directory / non-UTF-8 / empty), 0-3 documents per --json/--cbor/--csv route (as generated / truncated / empty / missing / directory / non-UTF-8 / dangling symlink), optional --stdin (JSON, CBOR, CBOR that is valid UTF-8, empty), --ci, --features, --csv-header, routes permuted, repeated flags or comma lists; also compile-cddl. Every report line is compared with the library call made in-process with the same features and header flag; a reference model says which documents the tool gets to; with --ci the exit status is compared. non-trivial = at least one verdict was reported (or compile-cddl ran); distinct = distinct FNV digests of (world, exit status, report events)".into(),
+    assumptions: vec![
+      "log line format: Validation of \"<path>\" is successful|failed, Validation from stdin is ..., <kind> \"<path>\" does not exist; file names are [a-z0-9.] so {:?} quoting is the identity".into(),
+      "the tool processes --json, --cbor, --csv, --stdin in that order, stops at the first failure under --ci and at the first unreadable file; without --ci the exit status is not constrained by the property and not checked".into(),
+      "a document the tool does not get to (after a stop) is not required to be reported".into(),
+    ],
+    real_components: vec!["target/repo/debug/cddl built from the /repo working tree (real process, real files, real stdin pipe)".into(), "cddl library of the /repo working tree linked into the harness (the oracle's library calls)".into()],
+    stub_components: vec!["none: the world is a real private directory".into()],
+    extra: Default::default(),
+  };
+  report::finish(&rep, &agg, findings, t0.elapsed().as_secs_f64(), None, &|p, v| c18::predicate(p, v))
 }
 
 // ------------------------------------------------------------------------------------------------
